@@ -165,6 +165,15 @@ CellOrientation cellOrientationInRow(CellRowPolarity cellPolarity,
 
 namespace {
 
+/**
+ * @brief Refuse an invalid effort before any effort-indexed table is read
+ */
+void checkEffort(int effort) {
+  if (effort < 1 || effort > 9) {
+    throw std::runtime_error("Placement effort must be between 1 and 9");
+  }
+}
+
 double interpolateEffort(double minVal, double maxVal, int effort,
                          int minEffort = 1, int maxEffort = 9) {
   assert(minEffort < maxEffort);
@@ -182,12 +191,11 @@ double interpolateLogEffort(double minVal, double maxVal, int effort,
 
 ColoquinteParameters::ColoquinteParameters(int effort, int seed)
     : global(effort), legalization(effort), detailed(effort), seed(seed) {
-  if (effort < 1 || effort > 9) {
-    throw std::runtime_error("Placement effort must be between 1 and 9");
-  }
+  checkEffort(effort);
 }
 
 RoughLegalizationParameters::RoughLegalizationParameters(int effort) {
+  checkEffort(effort);
   costModel = LegalizationModel::L1;
   nbSteps = 1;
   // TODO: find best parameter
@@ -209,6 +217,7 @@ RoughLegalizationParameters::RoughLegalizationParameters(int effort) {
 }
 
 PenaltyParameters::PenaltyParameters(int effort) {
+  checkEffort(effort);
   // TODO: make cutoff distance smaller at small effort
   cutoffDistance = 40.0;
   cutoffDistanceUpdateFactor = 1.0;
@@ -233,6 +242,7 @@ ContinuousModelParameters::ContinuousModelParameters(
 
 GlobalPlacerParameters::GlobalPlacerParameters(int effort)
     : continuousModel(effort), roughLegalization(effort), penalty(effort) {
+  checkEffort(effort);
   maxNbSteps = 400;
   nbInitialSteps = 0;
   nbStepsBeforeRoughLegalization = 1;
@@ -268,6 +278,7 @@ std::string GlobalPlacerParameters::toString() const {
 }
 
 DetailedPlacerParameters::DetailedPlacerParameters(int effort) {
+  checkEffort(effort);
   nbPasses = std::round(interpolateLogEffort(2.0, 8.0, effort));
   localSearchNbNeighbours = std::round(interpolateLogEffort(2.0, 16.0, effort));
   localSearchNbRows = std::round(interpolateEffort(1.0, 4.0, effort));
